@@ -868,7 +868,8 @@ def run(ctx):
            'units': len(units), 'units_completed': tot['units_done'], 'instance_starts': tot['starts'], 'kicks': tot['kicks'],
            'determinism_and_confirmation_replays': tot['replays'], 'fd_baseline_checks': tot['fd_checks'],
            'max_histories_on_one_instance': maxh, 'idle_baseline_fds': sorted(set(baselines.values())),
-           'virtual_seconds_after_each_history': TOTAL_S, 'latest_squid_reaction_virtual_s': last_ev, 'outcome_totals': stats,
+           'virtual_seconds_after_each_history': TOTAL_S, 'latest_squid_reaction_virtual_s': last_ev,
+           'build_step_wall_s': round(t_built - ctx.t0, 1), 'exploration_wall_s': round(time.time() - t_built, 1), 'outcome_totals': stats,
            'outcome_classes': dict(sorted(classes.items(), key=lambda kv: -kv[1])[:25])}
     obs = ['cache.log BUG line (not a violation of C08 by itself): ' + b for b in bugs[:10]]
     return Result(LEVEL, cov, vio, ASSUME, obs)
